@@ -68,7 +68,8 @@ func (m *vsModel) state(key string, t0, t1 int64) int {
 		return 1
 	}
 	if t0 >= e.hi+vsSecond {
-		delete(m.m, key)
+		// The stale entry stays in the map until it is overwritten or deleted:
+		// delVariants wants to know which keys a store may still physically hold.
 		return 0
 	}
 	return -1
@@ -94,9 +95,34 @@ func (m *vsModel) unsafeUntil(keys []string, now int64) int64 {
 	return until
 }
 
-func (m *vsModel) hasExpiry(keys []string) bool {
+// delVariants computes, for a DEL about to be applied, what two plausible wrong
+// implementations would count: every occurrence of a live key (duplicates
+// counted again), distinct keys that are stored but already expired, and both.
+func (m *vsModel) delVariants(args [][]byte, t0, t1 int64) (dups, withExpired, both int64) {
+	seen := map[string]bool{}
+	for _, a := range args[1:] {
+		e := m.m[string(a)]
+		if e == nil {
+			continue
+		}
+		alive := !e.exp || t1 <= e.lo-vsSecond
+		if alive {
+			dups++
+		}
+		both++
+		if !seen[string(a)] {
+			seen[string(a)] = true
+			withExpired++
+		}
+	}
+	return dups, withExpired, both
+}
+
+// hasExpiry reports whether one of keys carries a deadline that has not
+// safely passed yet at time now.
+func (m *vsModel) hasExpiry(keys []string, now int64) bool {
 	for _, k := range keys {
-		if e := m.m[k]; e != nil && e.exp {
+		if e := m.m[k]; e != nil && e.exp && now < e.hi+vsSecond {
 			return true
 		}
 	}
